@@ -13,5 +13,5 @@ def run(tier, seed):
     rng = random.Random(seed)
     ff_cases(chk, rng, 48 if tier == 'quick' else 1600, (None, None, 'ideal', 'ideal', 'real'))
     nor = 16 if (tier == 'quick' and not chk.broken) else (48 if tier == 'quick' else 800)
-    run_oracle(chk, rng, nor, 'ff.c10_oracle', 'c10-oracle', (None, 'ideal'), probes=[os.path.join(ROOT, 'probes', 'C10-sloper.json')])
+    run_oracle(chk, rng, nor, 'ff.c10_oracle', 'c10-oracle', (None, 'ideal'), probes=[os.path.join(ROOT, 'probes', f) for f in ('C10-sloper.json', 'C10-zigzag.json')])
     return chk.finish()
